@@ -55,7 +55,8 @@ Inductive mode_t :=
 | MStart            (* a statement / declaration / property starts here *)
 | MNoExpr           (* no expression before the next terminator *)
 | MUntilAssign      (* set / add / declare / .property: the expression starts after the assignment operator *)
-| MUntilColon       (* case / default label *)
+| MUntilColon       (* default label *)
+| MCase             (* case <expression> : juxtaposition = concatenation, up to the colon *)
 | MExpr             (* inside an expression: juxtaposition = concatenation *)
 | MCall0            (* after "call" *)
 | MCallName         (* after "call <name>" *)
@@ -82,7 +83,7 @@ Record st := St {
 Definition st0 : st := St MStart false 0 false None false false KSemi RNo false.
 
 Definition inexpr (m : mode_t) : bool :=
-  match m with MExpr | MErrCall _ | MCallName => true | _ => false end.
+  match m with MExpr | MErrCall _ | MCallName | MCase => true | _ => false end.
 
 Definition is_label (t : tok) : bool := kis (tk t) KIdent && last_is ":"%byte (tl t).
 
@@ -98,12 +99,14 @@ Definition next_mode (m : mode_t) (p : bool) (t : tok) : mode_t * bool :=
       | KCall => (MCall0, false)
       | KIdent => (if is_label t then MStart else MExpr, false)
       | KElse => (MStart, false)
-      | KCase | KDefault => (MUntilColon, false)
+      | KCase => (MCase, false)
+      | KDefault => (MUntilColon, false)
       | _ => (MNoExpr, false)
       end
   | MNoExpr => (MNoExpr, false)
   | MUntilAssign => (match k with KAssign _ => MExpr | _ => MUntilAssign end, false)
   | MUntilColon => (match k with KColon => MStart | _ => MUntilColon end, false)
+  | MCase => (match k with KColon => MStart | _ => MCase end, opend k)
   | MExpr => (MExpr, opend k)
   | MCall0 => (MCallName, false)
   | MCallName => (MExpr, opend k)
